@@ -295,8 +295,10 @@ def run_case(recipe):
         r.check("C01.no-crash", False, real._stage, "building the language / a valid model raised %r%s" % (
             real.build_error, "; a reaches expression is only well-typed if the type of %s is the least common "
             "ancestor of the operands" % "/".join(sens) if sens else ""),
-                "build:%s:%s%s" % (real._stage.split(".")[-1], type(real.build_error).__name__,
-                                   ":lca-typing:" + "+".join(sens) if sens else ""))
+                # a language that is only well-typed under closest-common-ancestor typing is identified by that cause: how the
+                # rejection surfaces (LanguageGraphStepExpressionError, or AttributeError on the (None, None, None) error value
+                # when the ill-typed part is nested) is incidental
+                "build:%s:%s" % (real._stage.split(".")[-1], ("rejected:lca-typing:" + sens[0]) if sens else type(real.build_error).__name__))
         r.nontrivial_key = common.recipe_hash(recipe)
         return r
     r.check("C01.no-crash", True, FN_EVAL)
